@@ -119,6 +119,27 @@ func New(npre int) *Model {
 	return m
 }
 
+// Seed creates an entry below mount root i before the guest starts (content that already
+// exists on the host). It reports false when the parent is missing or the name is taken.
+func (m *Model) Seed(root int, path string, dir bool, data []byte) bool {
+	if root < 0 || root >= len(m.Roots) {
+		return false
+	}
+	parent, name, t, errno := walk(m.Roots[root], path)
+	if errno != 0 || parent == nil || t != nil {
+		return false
+	}
+	n := m.newInode(dir)
+	n.Nlink = 1
+	if dir {
+		n.Parent = parent
+	} else {
+		n.Data = append([]byte{}, data...)
+	}
+	parent.Ents[name] = n
+	return true
+}
+
 func (m *Model) newInode(dir bool) *Inode {
 	m.nextID++
 	n := &Inode{ID: m.nextID, Dir: dir}
